@@ -308,7 +308,7 @@ func (rs *RequestServer) packetWorker(ctx context.Context, pktChan chan orderedR
 		case hasHandle:
 			handle := pkt.getHandle()
 			request, ok := rs.getRequest(handle)
-			if !ok {
+			if !ok || !request.serves(pkt) {
 				rpkt = statusFromError(pkt.id(), EBADF)
 			} else {
 				rpkt = request.call(rs.Handlers, pkt, rs.pktMgr.alloc, orderID, rs.maxTxPacket)
